@@ -228,8 +228,13 @@ def run_reply(c, P):
     up_line = hdr(H_UP, upg)
     ac_line = hdr(H_AC, acc)
     other = hdr(b'Connection', b'Upgrade')
-    proto = hdr(b'Sec-WebSocket-Protocol', b'chat')
-    ext = hdr(b'Sec-WebSocket-Extensions', b'permessage-deflate')
+    # spellings of the negotiated protocol / extension values (RFC 7230 list syntax: optional whitespace around ',' ';' '=')
+    pvals = [v.encode('latin1') for v in P.get('proto_values', ['chat'])]
+    evals = [v.encode('latin1') for v in P.get('ext_values', ['permessage-deflate'])]
+    pval = pvals[c.choose(len(pvals), 'protoval')] if len(pvals) > 1 else pvals[0]
+    evalue = evals[c.choose(len(evals), 'extval')] if len(evals) > 1 else evals[0]
+    proto = hdr(b'Sec-WebSocket-Protocol', pval)
+    ext = hdr(b'Sec-WebSocket-Extensions', evalue)
     upgrade_present = True
     upgrade_single = True
     accept_present = True
@@ -274,7 +279,7 @@ def run_reply(c, P):
     w.notes['hs_len'] = len(reply)
     rec = hconn.drive(w, ws, dict(poll=1e9, ping_rate=0, ping_timeout=None, close_timeout=None))
     names = rec.names()
-    c.notes['scenario'] = dict(template=t, events=names)
+    c.notes['scenario'] = dict(template=t, events=names, ext=evalue.decode('latin1'), proto=pval.decode('latin1'))
     if rec.budget is not None:
         raise EngineLimit('wait budget of the harness exhausted: %s' % rec.budget)
     if rec.exc is not None:
@@ -299,6 +304,19 @@ def run_reply(c, P):
     if not upgrade_present or not accept_present or not upgrade_single:
         expected = False
     got_ready = 'ready' in names
+    # (the content checks come first: the accept comparison below has a known finding on every Ready path, and a
+    #  violation ends the path)
+    if got_ready:
+        ev = rec.events[names.index('ready')]
+        if ev.protocol != 'chat':
+            c.fail('C10: Ready.protocol = %r (reply said %r)' % (ev.protocol, pval), sig='C10: Ready.protocol wrong')
+        if set(ev.extensions) != {'permessage-deflate'}:
+            c.fail('C10: Ready.extensions = %r (reply said %r)' % (ev.extensions, evalue), sig='C10: Ready.extensions wrong')
+        if not ws.supports_compression:
+            c.fail('C10: permessage-deflate negotiated (%r) but compression is not enabled' % (evalue,),
+                   sig='C10: negotiated compression not enabled')
+        if names.count('text') != 1:
+            c.fail('C10: Text frame after a valid reply not delivered exactly once: %s' % names)
     # decide: on this path (got_ready is concrete) the expected verdict must agree for every value
     if got_ready:
         if not upgrade_present or not accept_present or not upgrade_single:
@@ -318,13 +336,6 @@ def run_reply(c, P):
         c.prove(neg, 'C10: correct upgrade reply (template %s) not granted Ready: events %s' % (t, names),
                 sig='C10: correct reply rejected (template %s)' % t)
     if got_ready:
-        ev = rec.events[names.index('ready')]
-        if ev.protocol != 'chat':
-            c.fail('C10: Ready.protocol = %r (reply said chat)' % (ev.protocol,))
-        if set(ev.extensions) != {'permessage-deflate'}:
-            c.fail('C10: Ready.extensions = %r' % (ev.extensions,))
-        if names.count('text') != 1:
-            c.fail('C10: Text frame after a valid reply not delivered exactly once: %s' % names)
         cls = 'ready:' + t
     else:
         if 'rejected' not in names and 'protocol_error' not in names:
